@@ -13,9 +13,14 @@ import Ohsl.Driver.Band
 import Ohsl.Driver.Sparse
 import Ohsl.Driver.Krylov
 import Ohsl.Driver.Roots
+import Ohsl.Driver.CxFun
+import Ohsl.Driver.Dot
+import Ohsl.Driver.Newton
+import Ohsl.Driver.Mesh
+import Ohsl.Driver.Misc
 namespace Ohsl
 
-def executors : List (String → P (Option String)) := [DrvCx.exec, DrvMat.exec, DrvSolve.exec, DrvVec.exec, DrvPoly.exec, DrvTri.exec, DrvBand.exec, DrvSp.exec, DrvKrylov.exec, DrvRoots.exec]
+def executors : List (String → P (Option String)) := [DrvCx.exec, DrvMat.exec, DrvSolve.exec, DrvVec.exec, DrvPoly.exec, DrvTri.exec, DrvBand.exec, DrvSp.exec, DrvKrylov.exec, DrvRoots.exec, DrvCxFun.exec, DrvDot.exec, DrvNewton.exec, DrvMesh.exec, DrvMisc.exec]
 
 def exec (op : String) : P String := do
   for e in executors do
